@@ -852,7 +852,8 @@ def run(ctx: Ctx) -> int:
     in_child(_verify_deps, lay)  # in a fork: the main interpreter must stay pristine (workers are forked from it)
     scratch = str(ctx.scratch)
 
-    # ---- enumerate histories (deterministic; quick = core + seed slice; deeper levels use a thinner slice)
+    # ---- enumerate histories (deterministic; quick = core + seed slice: 1/16 of depth 1, 1/64 of depth 2, 1/48 of the
+    # generator-object histories - thinner than 1/16 to keep the quick tier within ~350 CPU seconds)
     d1: typing.Dict[str, typing.Tuple[dict, bool]] = {}
     d1_space = 0
     for ev, sigma in full_alphabet():
@@ -870,7 +871,7 @@ def run(ctx: Ctx) -> int:
                     continue
                 e = dict(b, reuse=reuse)
                 d2_space += 1
-                if ctx.thorough or _core2(a, b) or ctx.in_slice("d2|" + ev_id(a) + ">" + ev_id(e), 48):
+                if ctx.thorough or _core2(a, b) or ctx.in_slice("d2|" + ev_id(a) + ">" + ev_id(e), 64):
                     deep.setdefault("2|" + ev_id(a), ([a], []))[1].append(e)
     d3_space = 0
     if ctx.thorough:
@@ -896,7 +897,7 @@ def run(ctx: Ctx) -> int:
     g_space = 0
     for a, b in generator_reuse_histories():
         g_space += 1
-        if ctx.thorough or _core_g(a, b) or ctx.in_slice("g|" + ev_id(a) + ">" + ev_id(b), 32):
+        if ctx.thorough or _core_g(a, b) or ctx.in_slice("g|" + ev_id(a) + ">" + ev_id(b), 48):
             deep.setdefault("g|" + ev_id(a), ([a], []))[1].append(b)
     ctx.cap(
         "depth >= 2: prefix events use the full type set in sorted order with pps in {none, limit} "
